@@ -1,19 +1,28 @@
 #!/bin/bash
-# Must-fail corpus: every seeded change under /verif/seeded is applied to /repo in turn, the
-# check of its property is run, and the change is undone again. A seed whose meta.json says it
-# was caught must still make the check exit 1 with a VIOLATION line; otherwise this script fails.
-# usage: selftest/run.sh [seed-id ...]
+# Must-fail corpus: every seeded change under /verif/seeded is applied to a scratch copy of
+# /repo's working tree (never to /repo itself), the check of its property is run on the copy,
+# and the copy is removed. A seed whose meta.json says it was caught must still make the check
+# exit 1 with a VIOLATION line; otherwise this script exits 1.
+# usage: selftest/run.sh [seed-id | property-id ...]      (no argument: the whole corpus)
 cd "$(dirname "$0")/.."
-if [ -n "$(git -C /repo status --porcelain)" ]; then echo "selftest: /repo has uncommitted changes, refusing"; exit 2; fi
+export GOPROXY=off GOSUMDB=off GOTOOLCHAIN=local GOFLAGS=-mod=vendor PATH=/opt/veriftools/go1.26.8/bin:$PATH
+sel="$@"; seeds=""
+if [ -z "$sel" ]; then seeds=$(ls seeded); else
+  for a in $sel; do
+    if [ -d "seeded/$a" ]; then seeds="$seeds $a"; else seeds="$seeds $(ls seeded | grep "^$a-" || true)"; fi
+  done
+fi
 fail=0
-seeds="$@"; [ -z "$seeds" ] && seeds=$(ls seeded)
 for s in $seeds; do
   d=seeded/$s; [ -f $d/patch.diff ] || continue
   prop=$(jq -r .property $d/meta.json); want=$(jq -r .check_exit_code_with_change $d/meta.json)
-  if ! git -C /repo apply "$PWD/$d/patch.diff" 2>/dev/null; then echo "$s: patch does not apply (skipped)"; continue; fi
-  out=$(./check.sh $prop quick 2>&1); rc=$?
-  git -C /repo checkout -- . ; git -C /repo clean -fdq 2>/dev/null
-  line=$(echo "$out" | grep -m1 "^VIOLATION")
+  W=$(mktemp -d /var/tmp/sonicvc-seed-XXXX)
+  rsync -a --exclude .git /repo/ "$W/"
+  if ! (cd "$W" && patch -p1 -s --no-backup-if-mismatch < "$OLDPWD/$d/patch.diff" >/dev/null 2>&1); then echo "$s: patch does not apply (skipped)"; rm -rf "$W"; continue; fi
+  out=$(bin/sonicvc check --repo "$W" --property $prop --tier quick --no-replay --evidence "$W/.evidence.json" --replay-dir "$W/.replays" 2>&1); rc=$?
+  rm -rf "$W"
+  # never echo the check's own alarm line here: this script's output may be part of a check's output
+  line=$(echo "$out" | grep -m1 "^  obligation " | sed 's/^  obligation /first failed obligation: /' | cut -c1-160)
   if [ "$rc" = "$want" ]; then echo "$s: exit $rc as recorded  $line"; else echo "$s: exit $rc, recorded $want  <<< MISMATCH"; echo "$out" | tail -5; fail=1; fi
 done
 exit $fail
